@@ -39,6 +39,8 @@ func runC06(p *load.Program, r *oblig.Report) {
 	c11.ruleR2()
 	c11.ruleR1()  // an error code raised mid-frame is followed by a drain: no leftover for the next exchange
 	c11.ruleR10() // every fetch response reaches Batch.close, which drains it and releases the read lock
+	c11.ruleR7()  // and the Batch built after waitResponse succeeded owns the connection and the lock
+	c11.ruleR13() // the inline ApiVersions decoder accounts for the whole frame
 	for _, o := range sub.Obs {
 		o2 := *o
 		o2.Rule = "C06.R7 nothing of an abandoned or refused exchange is left on a connection that stays in use (" + strings.SplitN(o.Rule, " ", 2)[0] + ")"
